@@ -143,6 +143,12 @@ loop:
 				a.last = c
 				break loop
 			}
+			// A filename is a single path component. Anything else, such as ".."
+			// or a name with a slash in it, would let an archive place entries
+			// outside of the directory it's being extracted to.
+			if d.Name == "" || d.Name == "." || d.Name == ".." || strings.ContainsRune(d.Name, '/') {
+				return nil, InvalidFormat{"invalid filename in archive"}
+			}
 			name = d.Name
 		case FormatGoodbye: // This will effectively be a "cd .."
 			if entry != nil {
